@@ -8,15 +8,19 @@
 import HealSparse.Model.Map
 import HealSparse.Model.Value
 import HealSparse.Model.Ranges
+import HealSparse.Model.ScalarOps
+import HealSparse.Model.BoolOps
+import HealSparse.Model.WideMask
 namespace HS
 
 inductive Err where
-  | value | index | runtime | notImpl | type | bad (msg : String)
+  | value | index | runtime | notImpl | type | bad (msg : String) | inexact
 deriving Repr, DecidableEq
 
 def Err.tag : Err → String
   | .value => "ValueError" | .index => "IndexError" | .runtime => "RuntimeError"
   | .notImpl => "NotImplementedError" | .type => "TypeError" | .bad m => "bad-op:" ++ m
+  | .inexact => "inexact"
 
 /-- A `HealSparseMap` object of a concrete kind. -/
 structure MapObj where
@@ -202,5 +206,230 @@ def apiGet (m : MapObj) (pix : List Nat) : Except Err (List Val) :=
 
 /-- `coverage_mask` -/
 def apiCovMask (m : MapObj) : List Bool := (List.range m.c.ncov).map (covered m.c m.st)
+
+
+/-! ### wide-mask bit API (set_bits_pix, clear_bits_pix, check_bits_pix) -/
+
+def MapObj.maxbits (m : MapObj) : Nat :=
+  match m.kind with
+  | .wide n => 8 * n
+  | _ => 0
+
+def apiSetBits (m : MapObj) (pix : List Nat) (bits : List Nat) (clear : Bool) : Except Err MapObj := do
+  match m.kind with
+  | .wide _ => pure ()
+  | _ => throw .notImpl
+  if bits.isEmpty then throw .value                      -- np.max of an empty list
+  if bits.any (· ≥ m.maxbits) then throw .value
+  let value := bitvalsToPacked bits m.maxbits
+  if clear then apiUpdate m "and" pix (some [.bytes (complBytes value)]) true
+  else apiUpdate m "or" pix (some [.bytes value]) true
+
+def apiCheckBits (m : MapObj) (pix : List Nat) (bits : List Nat) : Except Err (List Bool) := do
+  match m.kind with
+  | .wide _ => pure ()
+  | _ => throw .type
+  let vals ← apiGet m pix
+  if bits.any (· ≥ m.maxbits) then throw .index
+  let bv := bitvalsToPacked bits m.maxbits
+  pure (vals.map fun v => match v with
+    | .bytes row => (List.zipWith (· &&& ·) row bv).any (· != 0)
+    | _ => false)
+
+/-! ### scalar operators -/
+
+/-- does a dyadic fit the float format exactly (mantissa width) -/
+def fitsFloat (bits : Nat) (x : Int × Nat) : Bool :=
+  let y := dyNorm x.1 x.2
+  let n := y.1.natAbs
+  let rec strip (fuel n : Nat) : Nat :=
+    match fuel with
+    | 0 => n
+    | f + 1 => if n != 0 && n % 2 == 0 then strip f (n / 2) else n
+  let m := strip 1100 n
+  m < 2 ^ (if bits == 32 then 24 else 53)
+
+def Val.fits (dt : DT) : Val → Bool
+  | .num n e => match dt with
+    | .flt b => fitsFloat b (n, e)
+    | _ => true
+  | _ => true
+
+/-- numpy `func(cell, k)` for one numeric cell; `none` = not exactly representable in the model -/
+def scalarCell (dt : DT) (op : String) (k : Int × Nat) (x : Val) : Option Val :=
+  match x with
+  | .num n e =>
+    let a := (n, e)
+    let r : Option (Int × Nat) :=
+      match op with
+      | "add" => some (dyAdd a k)
+      | "sub" => some (dySub a k)
+      | "mul" => some (dyMul a k)
+      | "div" => dyDiv? a k
+      | "pow" => if k.2 == 0 && k.1 ≥ 0 then some (dyPowNat a k.1.toNat) else none
+      | "and" => some (intBitop (· &&& ·) dt n k.1, 0)
+      | "or"  => some (intBitop (· ||| ·) dt n k.1, 0)
+      | "xor" => some (intBitop (· ^^^ ·) dt n k.1, 0)
+      | _ => none
+    r.bind fun y =>
+      let y := dt.wrap y
+      let v := Val.num y.1 y.2
+      if v.fits dt then some v else none
+  | _ => none
+
+def intOnlyOp (op : String) : Bool := op == "and" || op == "or" || op == "xor"
+
+inductive Scalar where
+  | int (k : Int) | flt (k : Int × Nat) | bits (l : List Nat)
+
+/-- `_apply_operation(other, func, int_only, in_place)`; returns the new storage. -/
+def apiScalarOp (m : MapObj) (op : String) (k : Scalar) : Except Err (State Val) := do
+  match m.kind with
+  | .recd _ _ => throw .notImpl
+  | _ => pure ()
+  if m.kind.isBool then throw .notImpl
+  if intOnlyOp op then
+    if !m.kind.isIntegerMap then throw .notImpl
+  else
+    match m.kind with
+    | .wide _ => throw .notImpl
+    | _ => pure ()
+  match k with
+  | .bits l =>
+    match m.kind with
+    | .wide _ => pure ()
+    | _ => throw .notImpl
+    if l.isEmpty then throw .value
+    if l.any (· ≥ m.maxbits) then throw .value
+  | _ => pure ()
+  match m.kind, k with
+  | .wide _, .bits l =>
+    let bv := bitvalsToPacked l m.maxbits
+    let f : Val → Val := fun x =>
+      match op with
+      | "and" => Val.and (.int 8 false) x (.bytes bv)
+      | "or"  => Val.or (.int 8 false) x (.bytes bv)
+      | _     => Val.xor (.int 8 false) x (.bytes bv)
+    pure (scalarOp m.vc m.st f)
+  | .wide _, _ => throw .notImpl
+  | .plain dt, sc =>
+    let kk ← match sc with
+      | .int k => pure (k, 0)
+      | .flt k => if intOnlyOp op then throw .notImpl else pure k
+      | .bits _ => throw .notImpl
+    -- numpy casting / overflow rules for `out=` of the map's dtype
+    match dt, sc with
+    | .int b sg, .int k => if wrapInt b sg k != k then throw .type
+    | .int _ _, .flt _ => throw .type
+    | _, _ => pure ()
+    if op == "div" && dt.isInt then throw .type
+    if op == "pow" && dt.isInt && kk.1 < 0 then throw .value
+    let cells := m.st.sp.toList.filter m.vc.valid
+    if cells.any (fun x => (scalarCell dt op kk x).isNone) then throw .inexact
+    pure (scalarOp m.vc m.st fun x => (scalarCell dt op kk x).getD x)
+  | _, _ => throw .notImpl
+
+/-! ### apply_mask, astype, as_bit_packed_map -/
+
+/-- `apply_mask(mask_map, mask_bits=…, mask_bit_arr=…)`; returns the new storage. -/
+def apiApplyMask (m mask : MapObj) (maskBits : Option Int) (bitArr : Option (List Nat)) :
+    Except Err (State Val) := do
+  if !mask.kind.isIntegerMap then throw .runtime
+  let isWide := match mask.kind with | .wide _ => true | _ => false
+  if maskBits.isSome && isWide then throw .runtime
+  -- NEP 50: a Python integer outside the mask dtype's range raises OverflowError in `values & mask_bits`
+  match mask.kind, maskBits with
+  | .plain (.int b sg), some k => if wrapInt b sg k != k then throw .type
+  | _, _ => pure ()
+  if isWide then
+    match bitArr with
+    | some l => if l.any (· ≥ mask.maxbits) then throw .index
+    | none => pure ()
+  let bad : Nat → Bool := fun p =>
+    match mask.abs p, maskBits with
+    | .bytes row, _ =>
+      (match bitArr with
+       | none => row.any (· != 0)
+       | some l => (List.zipWith (· &&& ·) row (bitvalsToPacked l mask.maxbits)).any (· != 0))
+    | .num n _, none => n != 0
+    | .num n _, some b => intBitop (· &&& ·) mask.kind.dt n b != 0
+    | .bool x, none => x
+    | .bool x, some b => x && b % 2 != 0
+    | _, _ => false
+  match validPixels m.c m.vc m.st with
+  | none => throw .index
+  | some vp =>
+    if vp.any (fun p => p < 0 || p.toNat ≥ mask.npix) then throw .index
+    match applyMask m.c m.vc m.st bad with
+    | some s => pure s
+    | none => throw .index
+
+/-- numpy `astype` on one valid cell -/
+def convCell (src dst : DT) (x : Val) : Option Val :=
+  match x, dst with
+  | .num n e, .int b sg =>
+    -- float → int truncates toward zero; int → int wraps
+    let t : Int := if e == 0 then n else Int.tdiv n (2 ^ e)
+    if src.isFlt && wrapInt b sg t != t then none      -- out-of-range float→int is undefined behaviour
+    else some (.num (wrapInt b sg t) 0)
+  | .num n e, .flt b => if fitsFloat b (n, e) then some (.num n e) else none
+  | .bool v, .int _ _ => some (.num (if v then 1 else 0) 0)
+  | .bool v, .flt _ => some (.num (if v then 1 else 0) 0)
+  | .bool v, .bool => some (.bool v)
+  | .num n _, .bool => some (.bool (n != 0))
+  | _, _ => none
+
+def apiAstype (m : MapObj) (dst : DT) (sentinel : Option Val) : Except Err MapObj := do
+  let src ← match m.kind with
+    | .plain dt => pure dt
+    | .packed => pure DT.bool
+    | _ => throw .runtime
+  let sent' ← checkSentinel dst sentinel
+  let cells := m.st.sp.toList.filter m.vc.valid
+  if cells.any (fun x => (convCell src dst x).isNone) then throw .inexact
+  pure { m with kind := .plain dst, sent := sent', cache := none,
+                st := astypeMap m.vc m.st (fun x => (convCell src dst x).getD x) sent' }
+
+def apiAsBitPacked (m : MapObj) : Except Err MapObj := do
+  if m.kind == .packed then return { m with cache := none }
+  if m.c.nfine % 8 != 0 then throw .value
+  let s := asBitPacked m.c m.vc m.st
+  pure { m with kind := .packed, sent := .bool false, cache := none,
+                st := ⟨s.cov, s.sp.map Val.bool⟩ }
+
+/-! ### boolean algebra -/
+
+def boolFn (op : String) : Bool → Bool → Bool :=
+  match op with
+  | "and" => (· && ·)
+  | "or"  => (· || ·)
+  | _     => (· != ·)
+
+def toBoolState (s : State Val) : State Bool :=
+  ⟨s.cov, s.sp.map fun v => match v with | .bool b => b | _ => false⟩
+def ofBoolState (s : State Bool) : State Val := ⟨s.cov, s.sp.map Val.bool⟩
+
+inductive BoolRhs where
+  | const (k : Bool) | map (b : MapObj)
+
+/-- `_apply_boolean_map_operation(other, name, in_place)`; returns the new storage. -/
+def apiBoolOp (a : MapObj) (op : String) (rhs : BoolRhs) (inPlace : Bool) : Except Err (State Val) := do
+  if !a.kind.isBool then throw .notImpl
+  let vcb : VCfg Bool := ⟨false, fun b => b⟩
+  match rhs with
+  | .const k => pure (ofBoolState (boolConst a.c (toBoolState a.st) (boolFn op) k))
+  | .map b =>
+    if !b.kind.isBool then throw .notImpl
+    if a.spord != b.spord then throw .notImpl
+    if a.covord != b.covord then throw .notImpl
+    if a.sent == .bool true || b.sent == .bool true then throw .notImpl
+    if inPlace then
+      pure (ofBoolState (boolMapInPlace a.c vcb (toBoolState a.st) (toBoolState b.st) (boolFn op)))
+    else
+      pure (ofBoolState (boolMapCopy a.c (toBoolState a.st) (toBoolState b.st) (boolFn op)))
+
+def apiInvert (a : MapObj) : Except Err (State Val) := do
+  if !a.kind.isBool then throw .notImpl
+  pure (ofBoolState (invertMap a.c (toBoolState a.st)))
 
 end HS
